@@ -212,7 +212,7 @@ def bounds(env, g):
 
 
 @harness(P, quick=grid(g=["G2", "G3"], lead=[(("site", 2),)], window=["hs"]) + grid(g=["G2"], lead=[(("site", 2),)], window=["tp", "dpm"]),
-         thorough=grid(g=["G1"], lead=[(("time", 2),)], window=["hs", "tp", "dpm"]) + grid(g=["G3"], lead=[(("site", 2),)], window=["tp", "dpm"]), max_paths=3000, time_budget=400, hard_timeout=800)
+         thorough=grid(g=["G1"], lead=[(("time", 2),)], window=["hs", "tp", "dpm"]) + grid(g=["G3"], lead=[(("site", 2),)], window=["tp", "dpm"]), max_paths=3000, time_budget=240, hard_timeout=420)
 def scale_by_hs(env, g, lead, window="hs"):
     """scale_by_hs('va*hs+vb', <window>_min, <window>_max): prescribed height for the spectra whose hs / tp / dpm
     lies inside the window, every other spectrum untouched - in particular one whose tp / dpm is missing (no
